@@ -9,7 +9,7 @@ class P(Property):
 
     def units(self, tier):
         # refused requests in the middle of programs: whatever is refused leaves the object as it was (equal lengths, same series)
-        return [WeaverUnit(("C09",), max_len=10, invalid_kinds=['method', 'n_below_2', 'grid_ends', 'grid_ends_permuted', 'rule_t', 'rule_r', 'strategy', 'trunc_inverted', 'index_stop', 'fixed_not_in_x', 'interp_none']), BigIntAbscissaeUnit()]
+        return [WeaverUnit(("C09",), max_len=10, invalid_kinds=['method', 'n_below_2', 'grid_ends', 'grid_ends_permuted', 'rule_t', 'rule_r', 'strategy', 'trunc_inverted', 'index_stop', 'fixed_not_in_x', 'interp_none', 'recreate_kwarg']), BigIntAbscissaeUnit()]
 
 
 PROPERTY = P()
